@@ -28,6 +28,13 @@ def eval_term(t, lookup):
         return any(eval_term(x, lookup) for x in t[1])
     if k == "phi":
         return eval_term(t[2], lookup) if eval_term(t[1], lookup) else eval_term(t[3], lookup)
+    if k == "cases":
+        # a multi-exit value: the alternative whose path condition holds (exits are exclusive)
+        hits = [x for pc, x in t[1]
+                if all(eval_term(c, lookup) for c in pc if c[0] not in ("fact", "inloop"))]
+        if len(hits) == 1 or (hits and all(h == hits[0] for h in hits)):
+            return eval_term(hits[0], lookup)
+        raise Undecidable(str(t)[:200])
     if k == "cmp":
         a, b = eval_term(t[2], lookup), eval_term(t[3], lookup)
         op = t[1]
